@@ -12,7 +12,7 @@ LAST = {'abstracted': False}
 
 class Enc:
     def __init__(self):
-        self.vars = {}; self.side = []; self.opaque = {}; self.n = 0; self.abstracted = False
+        self.vars = {}; self.side = []; self.opaque = {}; self.n = 0; self.abstracted = False; self.powers = []
 
     def var(self, s):
         if s not in self.vars:
@@ -70,7 +70,10 @@ class Enc:
                     s = self.fresh(key, nonneg=True)
                     self.side.append(self.ipow(s, x.q) == self.t(b))
                 return self.ipow(self.opaque[key], x.p)
-            return self.fresh(e, pos=bool(b.is_positive or b == sp.E))
+            v = self.fresh(e, pos=bool(b.is_positive or b == sp.E))
+            if b.is_positive and ('pw', e) not in self.opaque:
+                self.opaque[('pw', e)] = True; self.powers.append((b, x, v))
+            return v
         if isinstance(e, sp.Abs):
             z = self.t(e.args[0]); return z3.If(z >= 0, z, -z)
         if isinstance(e, sp.Max):
@@ -139,7 +142,36 @@ class Enc:
             op = c.rel_op
             return {'<': l < r, '<=': l <= r, '>': l > r, '>=': l >= r, '==': l == r, '!=': l != r}[op]
         if isinstance(c, sp.Implies): return z3.Implies(self.b(c.args[0]), self.b(c.args[1]))
+        if isinstance(c, sp.Equivalent):
+            zs = [self.b(a) for a in c.args]
+            return z3.And(*[zs[0] == z for z in zs[1:]])
+        if isinstance(c, sp.Xor):
+            zs = [self.b(a) for a in c.args]; r = zs[0]
+            for z in zs[1:]: r = z3.Xor(r, z)
+            return r
+        if isinstance(c, sp.ITE): return z3.If(self.b(c.args[0]), self.b(c.args[1]), self.b(c.args[2]))
         raise ValueError('cannot encode boolean %r' % (c,))
+
+
+def power_facts(enc):
+    """monotonicity of real powers of positive bases (A3): sound side facts for the opaque power atoms"""
+    ents = []
+    for b, x, v in list(enc.powers):
+        ents.append((b, x, v)); ents.append((b, -x, 1 / v))
+    facts = []
+    done = set()
+    for b, x, v in ents:
+        zb = enc.t(b); zx = enc.t(x)
+        facts += [z3.Implies(z3.And(zx >= 0, zb >= 1), v >= 1), z3.Implies(z3.And(zx >= 0, zb <= 1), v <= 1), z3.Implies(z3.And(zx > 0, zb > 1), v > 1), z3.Implies(z3.And(zx > 0, zb < 1), v < 1)]
+    for i in range(len(ents)):
+        for j in range(len(ents)):
+            if i == j: continue
+            b1, x1, v1 = ents[i]; b2, x2, v2 = ents[j]
+            if x1 == x2 and b1 != b2 and (i, j) not in done:
+                done.add((i, j))
+                zb1 = enc.t(b1); zb2 = enc.t(b2); zx = enc.t(x1)
+                facts += [z3.Implies(z3.And(zx >= 0, zb1 <= zb2), v1 <= v2), z3.Implies(z3.And(zx > 0, zb1 < zb2), v1 < v2)]
+    return facts
 
 
 def _solver(timeout_ms):
@@ -155,6 +187,8 @@ def check(conds, timeout_ms=3000):
         return 'unknown', None
     s = _solver(timeout_ms)
     for z in zs: s.add(z)
+    if enc.powers and len(enc.powers) <= 12:
+        for z in power_facts(enc): s.add(z)
     for z in enc.side: s.add(z)
     t0 = time.time(); r = s.check(); STATS['time'] += time.time() - t0; STATS['queries'] += 1
     LAST['abstracted'] = enc.abstracted
